@@ -161,6 +161,7 @@ package hessian
 //@   readonly _zeroValue, _zeroDate, _dateType, _refHolderType, _zeroBoolPinter
 //@   initonly init, addBuildInNameType, SetLogger
 //@   readonlyuse (*bytes.Buffer).Write, io.Writer.Write, github.com/vogo/logger.Logger.Debugf, builtin:len, builtin:cap
+//@   recoverpoints (*Decoder).ReadObject
 //@   fieldwriters objectPool.cached newPool
 //@   fieldwriters objectPool.factory newPool
 
